@@ -390,6 +390,10 @@ def run_case(case) -> Outcome:
                     return out
                 amp = m * max(1.0, float(np.abs(x1).max() / (t * s)))
         tol = K * eps * amp * t * s
+        if name == "Krum":
+            # Krum returns the plain average of k rows: its rounding error is relative to the largest ROW norm, not to
+            # m times the largest singular value (which a common component shared by many rows inflates by m^1.5)
+            tol = K * eps * t * float(np.linalg.norm(J, axis=1).max()) * 4
         if name == "CAGrad":
             w = A.weighting(Jt).double().numpy()
             tol += (3e-3 if dtype == "float32" else 2e-4) * t * s * max(1.0, float(np.linalg.norm(w)))
